@@ -16,9 +16,9 @@ def run(ctx):
                 "and two-variable do-sets. distinct = (instance, latents, x, y); non-trivial iff x has a parent or a directed path to y exists.")
     ctx.assumptions += ["strictly positive CPDs (interventional conditionals are defined everywhere)",
                         "queries on variables inside the do-set or among its parents are refused by the engine and not asked"]
-    shapes = ["chain3", "fork3", "collider3", "tri3", "diamond", "collider_desc", "family3", "fork4", "mshape", "student", "chain_coll"]
+    shapes = ["chain3", "fork3", "collider3", "tri3", "diamond", "collider_desc", "confmed", "frontdoor", "family3", "fork4", "mshape", "student", "chain_coll"]
     if not ctx.thorough:
-        shapes = ["chain3", "fork3", "tri3", "diamond", "collider_desc", "mshape", "student"]
+        shapes = ["chain3", "fork3", "tri3", "diamond", "collider_desc", "confmed", "frontdoor", "mshape", "student"]
     insts = instances.bn_instances(ctx.seed + 13, shapes, 2 if ctx.thorough else 1, kinds=("generic",))
     # two extra classic structures: confounded front-door and M-bias with a mediator
     f = os.path.join(ctx.work, "inst_c13.json")
@@ -130,7 +130,8 @@ def replay_gen(payload):
         try:
             ms = ci.get_minimal_adjustment_set(vn[x], vn[y])
             if ms is not None and frozenset(inv[v] for v in ms) not in bd_all:
-                fail("CausalInference.get_minimal_adjustment_set", "set_violates_backdoor_criterion", sorted(inv[v] for v in ms), case["bd_all"])
+                fail("CausalInference.get_minimal_adjustment_set", "set_violates_backdoor_criterion", sorted(inv[v] for v in ms), case["bd_all"],
+                     contains_descendant_of_treatment=bool({inv[v] for v in ms} & set(case["descx"])))
         except ValueError:
             pass          # adjacent nodes: no separator possible in the proper back-door graph
         except Exception as ex:  # noqa
